@@ -837,7 +837,7 @@ pub fn check_on(tier: Tier, only: Option<Vec<Selected>>) -> i32 {
     }
     let thorough = tier == Tier::Thorough;
     let limit: usize = std::env::var("PDLMC_LIMIT").ok().and_then(|s| s.parse().ok()).unwrap_or(usize::MAX);
-    let stride: usize = std::env::var("PDLMC_JAVA_STRIDE").ok().and_then(|s| s.parse().ok()).unwrap_or(if thorough { 2 } else { 2 });
+    let stride: usize = std::env::var("PDLMC_JAVA_STRIDE").ok().and_then(|s| s.parse().ok()).unwrap_or(if thorough { 4 } else { 2 });
     let group: usize = std::env::var("PDLMC_JAVA_GROUP").ok().and_then(|s| s.parse().ok()).unwrap_or(16);
     let jobs: Vec<&Selected> = sel.states.iter().step_by(if single { 1 } else { stride.max(1) }).take(limit).collect();
     let timers = Timers { cc: AtomicU64::new(0), run: AtomicU64::new(0) };
